@@ -17,6 +17,14 @@ func New(r bufio.Reader) LexerReader {
 	content, _ := io.ReadAll(&r)
 	runes := []rune(string(content))
 
+	// rune 0 is what Read returns at end of input: a NUL inside the source
+	// must not look like the end of the stream, so it is read as a blank
+	for i, r := range runes {
+		if r == 0 {
+			runes[i] = ' '
+		}
+	}
+
 	return LexerReader{
 		runes:    runes,
 		pos:      0,
